@@ -2,6 +2,7 @@ SPECIFICATION TSpec
 CONSTANTS
   Cases = {}
   W64 = 0
+  SplitFee = TRUE
   W32 = 0
 INVARIANTS ForwardAgrees TransitAgrees AcceptedOnlyIf
 CHECK_DEADLOCK TRUE
